@@ -295,6 +295,9 @@ var topPrograms = func() []func() *Program {
 	}
 }()
 
+// TopProgram returns the i-th fixed top-of-memory program.
+func TopProgram(i int) *Program { return topPrograms[i%len(topPrograms)]() }
+
 // ---------------------------------------------------------------------------
 
 func hash(seed uint64, kind string, k string, a uint64) uint64 {
